@@ -33,6 +33,6 @@ def run(tier, seed):
 
 
 MANIFEST = {
-    "text": "Each public mutator is executed once from an arbitrary valid option state (symbolic values, flags, annotation, arguments) and its effect is compared with an abstract typed store through the public getters: replace/append positions, order preservation on removal, title uniqueness, modified flag, failure without effect for wrong type / illegal index / unknown title.",
+    "text": "Each public mutator is executed once from an arbitrary valid option state (symbolic values, flags, annotation, arguments) and its effect is compared with an abstract typed store through the public getters: replace/append positions, order preservation on removal, title uniqueness, modified flag, failure without effect for wrong type / illegal index / unknown title. Every public reader (size, indexed/by-name/index-less getters, titles, by-title and positional readers) is separately compared with the stored state for a symbolic index over all 2^32 values (get_step.c); setters on a simple integer option are covered.",
     "note": "One-call lemma from harness-built states; sequences by induction (paper argument); title matching concrete per obligation.",
 }
